@@ -20,6 +20,8 @@ V_EXC = "InvalidArgumentValueException"
 
 
 def _freeze(v):
+    if hasattr(v, "__next__"):
+        v = list(v)
     if isinstance(v, list):
         return ("list", tuple(_freeze(x) for x in v))
     if isinstance(v, tuple):
